@@ -603,3 +603,114 @@ def interleavings(vc):
         if after != want:
             bad.append((stop, "A after", after))
     vc.prove("results-equal-sequential-results", not bad, repr(bad[:3]))
+
+
+# ---------------------------------------------------------------------------------------
+# the other direction: a READER of the shared point (x, y, ==, to_affine, to_bytes, +, *) is pre-empted before every
+# source line it executes inside PointJacobi, and a complete in-place rescaling (scale() / to_affine()) of the same
+# object runs at that point.  Every reader must work on ONE snapshot of the coordinate tuple.  Bounded (2 threads, one
+# pre-emption per run, every line), labelled bounded.
+
+def fam_readers(seed, tier):
+    for op in ("x", "y", "eq_affine", "eq_jacobi", "to_affine", "raw", "compressed", "hybrid", "add", "mul", "neg", "double"):
+        for b in ("scale", "to_affine"):
+            yield dict(op=op, b=b)
+
+
+@proof("C20/curve-objects.reader-interleavings", functions=[(EC, "PointJacobi.x"), (EC, "PointJacobi.y"), (EC, "PointJacobi.__eq__"),
+                                                            (EC, "PointJacobi.to_affine"), (EC, "PointJacobi.scale")],
+       family=fam_readers, bounded_only=True)
+def reader_interleavings(vc):
+    ensure_repo_importable()
+    import importlib
+    M = importlib.import_module(EC)
+    C = importlib.import_module("register_crypto_plugin.ecdsa.curves")
+    curve = C.NIST192p
+    G = curve.generator
+    op, bname = vc._get("op"), vc._get("b")
+    p = curve.curve.p()
+
+    def fresh():
+        base = G * 5
+        x, y = base.x(), base.y()
+        z = 7
+        return M.PointJacobi(curve.curve, x * z * z % p, y * z * z * z % p, z, curve.order)
+
+    other = G * 11
+
+    def do(obj):
+        if op == "x":
+            return obj.x()
+        if op == "y":
+            return obj.y()
+        if op == "eq_affine":
+            return obj == (G * 5).to_affine()
+        if op == "eq_jacobi":
+            return (obj == G * 5, obj == other)
+        if op == "to_affine":
+            a = obj.to_affine()
+            return (a.x(), a.y())
+        if op in ("raw", "compressed", "hybrid"):
+            return obj.to_bytes(op)
+        if op == "add":
+            r = obj + other
+            return (r.x(), r.y())
+        if op == "mul":
+            r = obj * 0x1234567
+            return (r.x(), r.y())
+        if op == "neg":
+            r = -obj
+            return (r.x() % p, r.y() % p)       # (-P).y() is unreduced when P is affine: compared as field elements
+        r = obj.double()
+        return (r.x(), r.y())
+
+    want = do(fresh())
+    codes = {f.__code__ for f in vars(M.PointJacobi).values() if hasattr(f, "__code__")}
+    codes |= {f.__code__ for f in vars(M.AbstractPoint).values() if hasattr(f, "__code__")}
+    # first run: which (code, line) events does the reader execute?
+    events = []
+
+    def rec(frame, event, arg):
+        if frame.f_code in codes:
+            def local(frame, event, arg):
+                if event == "line":
+                    events.append((frame.f_code, frame.f_lineno))
+                return local
+            return local
+        return None
+    obj0 = fresh()
+    sys.settrace(rec)
+    try:
+        do(obj0)
+    finally:
+        sys.settrace(None)
+    bad = []
+    for n in range(len(events)):
+        vc.tick()
+        obj = fresh()
+        count = [0]
+        fired = [False]
+
+        def tracer(frame, event, arg):
+            if frame.f_code in codes:
+                def local(frame, event, arg):
+                    if event == "line" and not fired[0]:
+                        if count[0] == n:
+                            fired[0] = True
+                            sys.settrace(None)
+                            (obj.scale() if bname == "scale" else obj.to_affine())      # thread B, complete
+                            sys.settrace(tracer)
+                        count[0] += 1
+                    return local
+                return local
+            return None
+        sys.settrace(tracer)
+        try:
+            got = do(obj)
+        except Exception as e:
+            got = "%s: %s" % (type(e).__name__, e)
+        finally:
+            sys.settrace(None)
+        if got != want:
+            bad.append(("event %d = %s:%d" % (n, events[n][0].co_name, events[n][1]), str(got)[:60]))
+    vc.prove("reader-results-equal-sequential-results", not bad, repr(bad[:3]))
